@@ -60,7 +60,7 @@ let read_node () : node =
 let rec read_rexpr () : rexpr =
   match next () with
   | "N" -> RNode (next_nat ())
-  | "K" -> RConst (next_z ())
+  | "K" -> RConst (read_val ())
   | "B" -> let o = op_of_string (next ()) in let a = read_rexpr () in let b = read_rexpr () in RBin (o, a, b)
   | "U" -> let o = op_of_string (next ()) in let a = read_rexpr () in RUn (o, a)
   | s -> failwith ("rexpr " ^ s)
